@@ -64,7 +64,7 @@ def get_vector_orthogonal_basis(np0, tag_reduce=True, zero_eps=1e-10):
     if tag_reduce:
         np0 = reduce_vector_space(np0, zero_eps)
     else:
-        assert np.abs(np0.conj() @ np0.T - np.eye(np0.shape[0])).max() < np.sqrt(zero_eps)
+        assert (np0.shape[0]==0) or (np.abs(np0.conj() @ np0.T - np.eye(np0.shape[0])).max() < np.sqrt(zero_eps))
     N0,N1 = np0.shape
     if N0==N1:
         ret = np.zeros((0,N1), dtype=np0.dtype)
